@@ -395,6 +395,65 @@ def _um_chunk(cases):
     return [um_replay(c) for c in cases]
 
 
+def um_record(args):
+    """Code -> spec: random histories over 30 labels (far beyond the model's constants), the table _fit received last is
+    validated by Trace_UpdateMerge.tla."""
+    import warnings
+
+    warnings.filterwarnings("ignore")
+    from skchange.change_detectors.base import ChangeDetector
+
+    class Recorder(ChangeDetector):
+        _tags = {"fit_is_empty": False, "capability:multivariate": True}
+
+        def __init__(self):
+            self.seen = []
+            super().__init__()
+
+        def _fit(self, X, y=None):
+            self.seen.append(X.copy())
+            return self
+
+        def _predict(self, X):
+            return ChangeDetector._format_sparse_output([])
+
+    seed, count = args
+    rng = np.random.default_rng(seed)
+    U = 30
+    out = []
+    for i in range(count):
+        kind = str(rng.choice(UM_KINDS))
+        # decode index values back to the model's integer labels
+        if kind in ("int", "offset", "step"):
+            f = {"int": lambda l: l, "offset": lambda l: l + 1000, "step": lambda l: 3 * l}[kind]
+            back = {f(l): l for l in range(U)}
+        elif kind == "datetime":
+            back = {pd.Timestamp("2021-03-01") + pd.Timedelta(days=l): l for l in range(U)}
+        else:
+            back = {pd.Period("2021-03", freq="M") + l: l for l in range(U)}
+        batches = []
+        for b in range(int(rng.integers(2, 6))):
+            if rng.integers(0, 2):   # a run of consecutive labels (a slice of a longer frame)
+                a = int(rng.integers(0, U - 1))
+                labels = list(range(a, int(rng.integers(a + 1, min(U, a + 12) + 1))))
+            else:                    # any label set
+                labels = sorted(int(x) for x in rng.choice(U, size=int(rng.integers(1, 10)), replace=False))
+            batches.append(labels)
+        rid = f"um-{seed}-{i}"
+        try:
+            rec = Recorder().fit(um_frame([(l, 10 * 1 + l) for l in batches[0]], kind))
+            for k, b in enumerate(batches[1:], start=2):
+                rec.update(um_frame([(l, 10 * k + l) for l in b], kind))
+            got = rec.seen[-1]
+            table = [[back[ix], int(v)] for ix, v in zip(got.index, got["a"])]
+            ok_b = got["b"].tolist() == [-float(v) for v in got["a"]]
+        except Exception as e:
+            out.append({"id": rid, "error": repr(e)[:200], "index": kind, "batches": batches})
+            continue
+        out.append({"id": rid, "batches": batches, "table": table, "index": kind, "columns_consistent": bool(ok_b)})
+    return out
+
+
 def update_merge_stage(chk, tier, wd):
     L, mb = (4, 3) if tier == "quick" else (5, 3)
     cs = dict(L=L, MaxBatches=mb, MergeMode="code", Emit=False, NSlices=1, Slice=0)
@@ -413,6 +472,25 @@ def update_merge_stage(chk, tier, wd):
                     chk.violation({"stage": "B:update-merge", "um_case": case, "observed": obs}, clause,
                                   {"clause": clause, "stage": "update-merge", "index": obs.get("index"), "history": obs.get("history"),
                                    "entry": obs.get("entry")})
+    # code -> spec: larger random histories validated by TLC
+    count = 30 if tier == "quick" else 300
+    with ProcessPoolExecutor(max_workers=stages.NCPU) as ex:
+        traces = [t for part in ex.map(um_record, [(chk.seed + 100 + k, count) for k in range(16)]) for t in part]
+    for t in [t for t in traces if "error" in t]:
+        chk.case(t)
+        chk.violation({"stage": "C:update-merge", "trace": t}, "raises", {"clause": "raises", "stage": "update-merge", "index": t["index"]})
+    traces = [t for t in traces if "error" not in t]
+    verdicts = stages.validate_traces(chk, "Trace_UpdateMerge", [{k: t[k] for k in ("id", "batches", "table")} for t in traces],
+                                      wd=wd, label="C:update-merge", batch=120)
+    for t in traces:
+        v = verdicts.get(t["id"])
+        chk.case({"stage": "C:update-merge", **t}, nontrivial=True, key=sha(["umc", t["batches"], t["index"]]))
+        if not t["columns_consistent"]:
+            v = "fail:columns_of_a_row_separated"
+        if v and v != "ok":
+            clause = v.split(":", 1)[1]
+            chk.violation({"stage": "C:update-merge", "trace": t, "verdict": v}, clause,
+                          {"clause": clause, "stage": "update-merge", "index": t["index"]})
 
 
 def run(tier: str) -> int:
